@@ -30,8 +30,9 @@ Conventions: indices < 65536, flags < 256 (octets), times are reduced mod 2^48
 (`Timestamp::new`), event class 1..3 (anything else = no class).  `VecList` is abstracted to `List`
 (`add` = append, `remove_first p`, `remove_all p`, `iter` = list order).
 
-Known defect D3 is reproduced on purpose: `insert` into a full type discards the oldest record of
-that type without decrementing `written` when that record is `Written`.
+`insert` into a full type discards the oldest record of that type; when that record is `Written`
+(carried by a response that still awaits its confirm) `written` is decremented with `total`
+(the repair of D3).
 -/
 namespace Dnp3
 
@@ -272,8 +273,8 @@ deriving DecidableEq, Repr, Inhabited
 
 end DbM
 
-/-- `EventBuffer::insert` (D3 reproduced: `written` is not touched when the discarded record is
-    `Written`) -/
+/-- `EventBuffer::insert`; a discarded record that is `Written` is taken out of `written` too
+    (type counter, then class counter — the order of the Rust statements) -/
 def Db.insert (db : Db) (idx cls : Nat) (t : PtType) (m : Meas) (defVar : Nat) : Db × InsertResult :=
   if db.evMax = 0 then (db, .typeMaxIsZero) else
   let id := db.next
@@ -283,6 +284,7 @@ def Db.insert (db : Db) (idx cls : Nat) (t : PtType) (m : Meas) (defVar : Nat) :
     | some (d, rest) =>
       ({ db with next := id + 1, events := rest ++ [mk]
                  total := (((db.total.decTy t).decCls d.cls).incCls cls).incTy t
+                 written := if d.st = .written then (db.written.decTy t).decCls d.cls else db.written
                  overflown := true },
        .overflow id d.id)
     | none =>
